@@ -147,6 +147,15 @@ func GenConfig(r *Rng, mode string) Config {
 			cfg.Types[i].Limit = "30000000"
 		}
 	}
+	if r.Chance(1, 5) {
+		// keeper-liquidation histories: the block-level liquidator never runs, cdps get third-party deposits,
+		// prices drop, keepers liquidate; the reward percentage is positive so that it is deducted from a deposit
+		cfg.KeeperFocus = true
+		cfg.Interval = 1000
+		for i := range cfg.Types {
+			cfg.Types[i].Reward = []string{"0.01", "0.0005", "0.25", "0.05"}[r.Intn(4)]
+		}
+	}
 	pb, px := pick(priceChoices), pick(priceChoices)
 	cfg.Prices = []string{pb, pb, px, px}
 	if r.Chance(1, 4) {
@@ -157,7 +166,10 @@ func GenConfig(r *Rng, mode string) Config {
 	}
 	if (mode == "c05" && r.Chance(3, 4)) || r.Chance(1, 3) {
 		// the textbook boundary parameters: cf 6/6, floor 1, every-block liquidation
-		cfg.Types[2].CF, cfg.Types[2].Liq, cfg.DebtFloor, cfg.Interval = 6, pick([]string{"1.5", "1.5", "1.1", "3.0"}), "1", 1
+		cfg.Types[2].CF, cfg.Types[2].Liq, cfg.DebtFloor = 6, pick([]string{"1.5", "1.5", "1.1", "3.0"}), "1"
+		if !cfg.KeeperFocus {
+			cfg.Interval = 1
+		}
 		cfg.Types[2].Count = 10
 		if r.Chance(2, 3) {
 			p := pick([]string{"0.5", "1.0", "0.7", "0.333333333333333333"})
@@ -257,6 +269,9 @@ func (g *Gen) GenOp(s *Snap) Op {
 		w[5] += 6
 		w[6] += 8
 	}
+	if cfg.KeeperFocus && len(s.Cdps) > 0 {
+		w = []int{8, 22, 4, 8, 4, 26, 28}
+	}
 	switch r.Pick(w...) {
 	case 0: // create
 		o, t := r.Intn(NUsers), r.Intn(nT)
@@ -337,12 +352,12 @@ func (g *Gen) GenOp(s *Snap) Op {
 		if !ok {
 			op.O, op.T = r.Intn(NUsers), r.Intn(nT)
 		}
-		if r.Chance(1, 2) {
+		if r.Chance(1, 2) && !(cfg.KeeperFocus && r.Chance(3, 4)) {
 			op.U = op.O
 		}
 		op.CD = cfg.Types[op.T].Denom
 		x := g.collAmount(s, op.U, op.CD)
-		if ok && r.Chance(1, 3) {
+		if ok && (r.Chance(1, 3) || (cfg.KeeperFocus && r.Chance(2, 3))) {
 			// the same amount as an existing deposit: equal shares at seizure
 			for _, d := range s.Deps {
 				if d.ID == c.ID {
@@ -558,6 +573,18 @@ func (g *Gen) GenOp(s *Snap) Op {
 			return g.blockOp(s)
 		}
 		op := Op{Kind: "liquidate", O: c.Owner, U: r.Intn(NUsers), T: c.T}
+		for try := 0; try < 4; try++ { // prefer a keeper who is not a depositor of the cdp
+			isDep := false
+			for _, d := range s.Deps {
+				if d.ID == c.ID && d.U == op.U {
+					isDep = true
+				}
+			}
+			if !isDep {
+				break
+			}
+			op.U = r.Intn(NUsers)
+		}
 		if !ok || mal {
 			op.O, op.T = r.Intn(NUsers+1), r.Intn(nT+1)
 		}
@@ -607,7 +634,11 @@ func (g *Gen) genPrices(s *Snap) [][2]string {
 	if cur.Sign() == 0 {
 		cur = s.Price[pair]
 	}
-	switch r.Pick(30, 40, 10, 12, 8) {
+	pw := []int{30, 40, 10, 12, 8}
+	if cfg.KeeperFocus {
+		pw = []int{10, 70, 10, 4, 6}
+	}
+	switch r.Pick(pw...) {
 	case 0: // random move of both markets
 		var np *big.Int
 		if cur.Sign() == 0 {
@@ -636,7 +667,7 @@ func (g *Gen) genPrices(s *Snap) [][2]string {
 		}
 		p := decOf(tc.Liq).Mul(toBase(debt, cfg.DebtCF)).Quo(cb)
 		np := new(big.Int).Add(Mant(p), big.NewInt(int64(r.Intn(7)-3)))
-		if r.Chance(1, 4) {
+		if r.Chance(1, 4) || (cfg.KeeperFocus && r.Chance(3, 4)) {
 			np.Div(new(big.Int).Mul(np, big.NewInt(int64(60+r.Intn(39)))), big.NewInt(100)) // clearly below
 		}
 		if np.Sign() <= 0 {
